@@ -109,6 +109,19 @@ def run(R):
         s5 = step("update-after-edit", True, None)
         if s5[lib][0] != s0[lib][0]:
             viol("update after an edit did not restore the generated bytes", o, {"first": s0, "now": s5})
+        # 4b. an edit that keeps the length (one byte flipped, at the start / in the middle / at the very end): --check must
+        #     notice, an update must restore the bytes (persist_if_changed compares ALL bytes, not only the length)
+        good = open(lib, "rb").read()
+        for pos in (0, len(good) // 2, len(good) - 1):
+            bad_bytes = bytearray(good)
+            bad_bytes[pos] = ord("x") if bad_bytes[pos] != ord("x") else ord("y")
+            open(lib, "wb").write(bytes(bad_bytes))
+            sx = e2e_stage.snapshot(paths)
+            step("check-after-same-length-edit@%d" % pos, False, sx, check=True)
+            sy = step("update-after-same-length-edit@%d" % pos, True, None)
+            if sy[lib][0] != s0[lib][0]:
+                viol("update after an edit that keeps the file's length did not restore the generated bytes", o, {"first": s0, "now": sy, "edited_offset": pos})
+                open(lib, "wb").write(good)
         # 5. diagnostics file missing: --check must fail and must not create it
         os.unlink(dot)
         s6 = e2e_stage.snapshot(paths)
